@@ -161,7 +161,7 @@ fn relate(calc: &smartcalc::SmartCalc, lang: &str, tl: &str, te: &str) -> Verdic
         v.site = Some(p.site.clone());
         return v;
     }
-    let (sa, sb) = match (a.single(), b.single()) {
+    let (sa, sb) = match (a.last(), b.last()) {
         (Some(x), Some(y)) => (x.clone(), y.clone()),
         _ => {
             v.violation = Some("not one slot".into());
@@ -257,7 +257,7 @@ impl Prop for C19 {
             f.push(Family::new(
                 "dates",
                 Mode::Full,
-                "'d <Month> y' and 'd <Month>' (current year) for every month x days x years [2020, 1999] x every month-name synonym of every non-English language; also '+ N <unit>' for (10 days, 2 weeks, 3 months, 1 year)",
+                "'d <Month> y' and 'd <Month>' (current year) for every month x days x years [2020, 1999] x every month-name synonym of every non-English language; also '+ N <unit>' for (10 days, 2 weeks, 3 months, 1 year) and the duration written directly behind the date without an operator ('12 <March> 3 <days>', '12 <March> 2021 2 <weeks> 1 <day>')",
                 move |ch| {
                     let l = ch.pick(&langs).clone();
                     let m = 1 + ch.choose(12) as u32;
@@ -271,9 +271,12 @@ impl Prop for C19 {
                     if let Some(y) = y {
                         words.push(lit(&y.to_string()));
                     }
-                    let tail = ch.choose(5);
+                    let tail = ch.choose(7);
                     match tail {
                         0 => {}
+                        // the duration directly behind the date, no operator between them
+                        5 => words.extend([lit("3"), W::Const(1, 0)]),
+                        6 => words.extend([lit("2"), W::Const(2, 0), lit("1"), W::Const(1, 0)]),
                         1 => words.extend([lit("+"), lit("10"), W::Const(1, 0)]),
                         2 => words.extend([lit("+"), lit("2"), W::Const(2, 0)]),
                         3 => words.extend([lit("+"), lit("3"), W::Const(3, 0)]),
@@ -440,7 +443,7 @@ impl Prop for C19 {
         f.push(Family::new(
             "between-phrases",
             Mode::Full,
-            "the difference phrase, whose wording is not word-by-word: tr 'A B arası' against en 'A to B' for all ordered pairs of the times [0:00, 10:00, 13:45, 23:59] and of the dates [1/2/2021, 15/3/2021, 31/12/1999] (numeric, so only the phrase differs): same duration, printed with the language's unit words",
+            "the difference phrase, whose wording is not word-by-word: tr 'A B arası' against en 'A to B' for all ordered pairs of the times [0:00, 10:00, 13:45, 23:59] and of the dates [1/2/2021, 15/3/2021, 31/12/1999] (numeric, so only the phrase differs), the ends written out or held in one- and two-word variables: same duration, printed with the language's unit words",
             move |ch| {
                 let times = ["0:00", "10:00", "13:45", "23:59"];
                 let dates = ["1/2/2021", "15/3/2021", "31/12/1999"];
@@ -448,7 +451,14 @@ impl Prop for C19 {
                 if !spec().languages.iter().any(|l| l == "tr") {
                     return None;
                 }
-                Some(Case::Pair { lang: "tr".into(), line: format!("{} {} arası", a, b), en: format!("{} to {}", a, b) })
+                // the two ends written out, one end held in a variable, both ends held in variables
+                // (in Turkish the two names then stand directly next to each other)
+                match ch.choose(4) {
+                    0 => Some(Case::Pair { lang: "tr".into(), line: format!("{} {} arası", a, b), en: format!("{} to {}", a, b) }),
+                    1 => Some(Case::Pair { lang: "tr".into(), line: format!("a = {}\na {} arası", a, b), en: format!("a = {}\na to {}", a, b) }),
+                    2 => Some(Case::Pair { lang: "tr".into(), line: format!("a = {}\nb = {}\na b arası", a, b), en: format!("a = {}\nb = {}\na to b", a, b) }),
+                    _ => Some(Case::Pair { lang: "tr".into(), line: format!("shift start = {}\nshift end = {}\nshift start shift end arası", a, b), en: format!("shift start = {}\nshift end = {}\nshift start to shift end", a, b) }),
+                }
             },
         ));
         f.push(Family::new(
